@@ -158,6 +158,7 @@ pub fn run_history_with(h: &History, checks: Checks, stop_at_first: bool, source
         executed.push(step_owned.clone());
         probes.steps += 1;
         let mut out: Option<TxOut> = None;
+        let pre_derived = if checks.error_unchanged { Some(map.derived()) } else { None };
         let mut real_pre: Option<Vec<Vec<u32>>> = None;
         match step {
             Step::Tx(tx) => {
@@ -317,6 +318,11 @@ pub fn run_history_with(h: &History, checks: Checks, stop_at_first: bool, source
                     }
                     if checks.error_unchanged && post != pre {
                         findings.push(StepFinding { step: si, finding: Finding { prop: "C06", class: "state-changed-by-failed-call".into(), msg: format!("step {si} {tx:?} returned Err (op {k}: {e}) but the map changed: {}", post.diff(&pre)) } });
+                    } else if let Some(pd) = pre_derived {
+                        let qd = map.derived();
+                        if qd != pd {
+                            findings.push(StepFinding { step: si, finding: Finding { prop: "C06", class: "counters-changed-by-failed-call".into(), msg: format!("step {si} {tx:?} returned Err (op {k}: {e}) but the map's own counters (darts, removed darts, vertices) changed from {pd:?} to {qd:?}") } });
+                        }
                     }
                 }
                 TxValue::Abandoned => {
